@@ -1,14 +1,31 @@
-(* Props/C08.v -- placeholder until the parser proofs land: entry points agree definitionally. *)
-From JsonSyntax Require Import Base.Prelude Base.Value Base.Unicode Model.Parser Model.EntryPoints.
+(* Props/C08.v -- compact output is the unique minimal serialisation.  Statements only.
+   Reference serializer: Spec/Minimal.ser_min. *)
+From JsonSyntax Require Import Base.Prelude Base.Value Model.Printer Spec.Minimal
+  Proofs.PrinterProofs Proofs.PrinterTheorems.
 
-Theorem C08_entry_points_text : forall cs,
-  parse_str cs = parse_str_with strict cs /\
-  parse_str cs = parse_utf8 cs /\
-  parse_str cs = parse_utf8_with strict cs /\
-  parse_str cs = parse_infallible_utf8 cs /\
-  parse_str cs = parse_utf8_infallible_with strict cs /\
-  parse_str cs = parse (chars cs) /\
-  parse_str cs = parse_with strict (chars cs).
-Proof. exact (fun cs => conj eq_refl (conj eq_refl (conj eq_refl (conj eq_refl (conj eq_refl (conj eq_refl eq_refl)))))). Qed.
+Theorem C08_compact_is_minimal : forall v, print_with compact v = Some (ser_min v).
+Proof. exact C08_compact_minimal. Qed.
+(* Display / to_string / From<Value> for String delegate to compact printing *)
+Theorem C08_to_string : forall v, to_string v = Some (ser_min v).
+Proof. exact to_string_minimal. Qed.
+Theorem C08_compact_print : forall v, compact_print v = Some (ser_min v).
+Proof. exact compact_print_minimal. Qed.
+(* RFC 8785 string escaping, character by character *)
+Theorem C08_string_escaping : forall s, string_literal s = quote s.
+Proof. exact string_literal_quote. Qed.
+Theorem C08_escape_char : forall c, escape_char c = esc_min c.
+Proof. exact escape_char_esc_min. Qed.
 
-Print Assumptions C08_entry_points_text.
+Example C08_escapes :
+  esc_min 0x22 = [0x5C; 0x22] /\ esc_min 0x5C = [0x5C; 0x5C] /\ esc_min 0x08 = s2l "\b" /\
+  esc_min 0x09 = s2l "\t" /\ esc_min 0x0A = s2l "\n" /\ esc_min 0x0C = s2l "\f" /\ esc_min 0x0D = s2l "\r" /\
+  esc_min 0x1F = s2l "\u001f" /\ esc_min 0x0B = s2l "\u000b" /\ esc_min 0x00 = s2l "\u0000" /\
+  esc_min 0x2F = [0x2F] /\ esc_min 0x7F = [0x7F] /\ esc_min 0x2028 = [0x2028] /\ esc_min 0x1F600 = [0x1F600].
+Proof. vm_compute. repeat split. Qed.
+
+Print Assumptions C08_compact_is_minimal.
+Print Assumptions C08_to_string.
+Print Assumptions C08_compact_print.
+Print Assumptions C08_string_escaping.
+Print Assumptions C08_escape_char.
+Print Assumptions C08_escapes.
